@@ -12,87 +12,89 @@ Definition show_fres (r : fres) : string :=
   end.
 Definition check (rs : list rune) : string := digest (show_fres (format_res rs)).
 Definition full (rs : list rune) : string := show_fres (format_res rs).
-Eval vm_compute in ("<<<M1793>>>" ++ check (runes_of_ascii "packet metadata {
-    repeat f64 Foo,
-    repeat Logon f32a `
-        `,
-    @calculatedFrom(""1"")
-    repeat uint8 calculatedFrom `u8 x,`,
-    char[] packetx,// packet A { u8 x, }
-    @calculatedFrom(""abc"")
-    Pad @lengthOf(msg_type) `line1
-        line2`,
-    @rightPad(' ')
-    tag `" ++ [233]%N ++ runes_of_ascii "`,
-    @tag(10)
-    u8x @calculatedFrom(""CRC32""),
-    match metadata as msg_type {
-        [0123456789, ""\n""] : options1,
-        ""\n"" : float,
-    },
-}
-
-packet MetaDataX {
-    string string_ `doc`,
-    @rightPad('0')
-    zchar[00] zchar `a\`,
-}
-
-options {
-    leftPad = 0
-    float = 4294967296;
-}// `tick` ""quote"" 'q'
-
-root packet body {
-    @calculatedFrom(""1"")
-    @lengthOf(int)
-    match float as Z9_ {
-        // packet A { u8 x, }
-        // trailing space 
-        42 : x,
-        ""packet"" : matchKey,
-        """ ++ [28040; 24687]%N ++ runes_of_ascii """ : o,
-        255 : float,
-    },
-    @tag(0123456789)
-    match calculatedFrom as trueish {
-        [""packet"", ""`tick`"", """ ++ [233]%N ++ runes_of_ascii "t" ++ [233]%N ++ runes_of_ascii """] : MetaDataX,
-        4294967296 : trueish,
-        3 : i64_,
-        0123456789 : f32a,
-        [
-            7, 10, ""CRC32"", ""x y"", ""\n"",
-            ""CRC32"", ""`tick`""
-        ] : body,
-    },
-    char[1] Foo,
-    @rightPad(' ')
-    @calculatedFrom(""a	b"")
-    repeat string_ {
-        repeat Logon,
-        Z9_ i8i8,
-        match Z9_ as A {
-            [42] : Logon,
-            [
-                1, 4294967296, 0, ""CRC32"", ""a\""b"",
-                ""\" ++ [233]%N ++ runes_of_ascii """
-            ] : roots,
-            ""a\""b"" : MetaDataX,
-            255 : _x,
-            65535 : rootA,
-        },
-        match _x as Foo {
-            [
-                255, """ ++ [28040; 24687]%N ++ runes_of_ascii """, ""CRC32"",
-                """ ++ [233]%N ++ runes_of_ascii "t" ++ [233]%N ++ runes_of_ascii """, ""abc""
-            ] : len,
-            ""a\\"" : Pad,
-            0 : falsey,
-            3 : u128,
-        },// a // b
-    },
-    repeat options1 int `{ , }`,
-}")).
+Eval vm_compute in ("<<<M165>>>" ++ check (runes_of_ascii "packet falsey { char[7
+    ]
+Foo @calculatedFrom( ""CRC32"" ) , @tag(
+    //
+    10)	u8 Packet`" ++ [233]%N ++ runes_of_ascii "` ,repeat  stringy
+,
+@lengthOf( // a // b
+float)tag { repeat
+    u8x {
+int16 charz@lengthOf(trueish ) , //	t
+repeat  string calculatedFrom,
+charz @calculatedFrom(  ""a\""b""
+)	`line1
+line2`
+,
+},u64
+    MetaDataX @calculatedFrom( """ ++ [128512]%N ++ runes_of_ascii """
+    ) `" ++ [233]%N ++ runes_of_ascii "`
+    ,rootA
+    // packet A { u8 x, }
+    {
+    repeat	u64 BodyLength
+`" ++ [233]%N ++ runes_of_ascii "` , pack @calculatedFrom( //x
+""{,}"" )
+    `" ++ [28040; 24687; 31867; 22411]%N ++ runes_of_ascii "` ,repeat // c
+x charz,
+},
+    // a // b
+    char[] packetx, }	, // `tick` ""quote"" 'q'
+calculatedFrom , u x_y_z
+,repeat	int	i64_ ,@leftPad (
+    ' '
+)u32 T @calculatedFrom( ""{,}"" )
+, repeat
+    metadata , } root packet
+chars
+{ char[	65535
+]  pack @lengthOf( As ) `tab	here` , char[
+255] msg_type `// not a comment`
+    ,@calculatedFrom(
+    ""// no comment"" ) @tag( //	t
+0 ) @tag(10 ) repeat Header {
+    char[]
+// @lengthOf(
+// " ++ [27880; 37322]%N ++ runes_of_ascii "
+i64_,repeat T//x
+`` ,match uint8x	as i64_ {
+00// `tick` ""quote"" 'q'
+: _x ,	65535: //
+Z9_,
+""1""
+: u8x ,
+007 : Z9_
+, 255
+:
+matchKey
+""1"" :
+crc , } , } ,
+    @calculatedFrom(	""packet""	) match int as x_y_z{ 0123456789 :	Logon
+    // @lengthOf(
+    ,
+    //	t
+    [ 0123456789, ""it's"" ]
+:
+int
+    , [""a	b"" , ""CRC32"" , 0, 4294967296 , """"	] :
+pack , 0 : u , } , match // @lengthOf(
+string_ as
+int
+{ 0: repeatCount [ ""abc""
+    ] : // " ++ [27880; 37322]%N ++ runes_of_ascii "
+float 007: msg_type , [
+    ""a\""b""	]:
+charz , } , i16 MetaDataX`say ""hi""`, repeat u `tab	here` , repeat falsey  { repeat i8 lengthOf `a\` ,
+    repeatCount@lengthOf( o)
+    `{ , }`,}, }packet rootA
+    { calculatedFrom//	t
+@calculatedFrom( ""x y"") ,
+char Pad @calculatedFrom( ""a\""b"" ) `" ++ [233]%N ++ runes_of_ascii "`
+    , @leftPad
+( '\x00' )	repeat float64 tag ,
+    // " ++ [27880; 37322]%N ++ runes_of_ascii "
+    @calculatedFrom( ""1"") repeat Foo ,  } // " ++ [27880; 37322]%N)).
 Eval vm_compute in ("<<<M324>>>" ++ check (runes_of_ascii "MetaData Pad { char[] Packet , f32a i64_
     `tab	here`
 // c
@@ -162,166 +164,122 @@ len )repeat zchar[	00
 MetaData  metadata {
 u8 body
 , }")).
-Eval vm_compute in ("<<<M1762>>>" ++ check (runes_of_ascii "packet
-pack
-	{ @lengthOf(
-Foo 
-    // c
-    )asx
-@lengthOf( 
-_x
-
-    )/// triple
-  	, u8
-x_y_z	`two words`,	repeat zchar[ 0]	roots
-`
-` 
-      // `tick` ""quote"" 'q'
-	,
-
-lengthOf  @calculatedFrom( 
-""abc""
-    )
-,@tag(	3 
-) 
-@rightPad ( 
-' ') @calculatedFrom(
-
-    ""1"" 
-  //x
-  // " ++ [27880; 37322]%N ++ runes_of_ascii "
-  ) repeat
-
-uint64 i64_  // trailing space 
-  `say ""hi""`  // @lengthOf(
-
-	,
-@tag(	007 )match
-	roots as  float { ""a	b"":
-    lengthOf  ,  [ 
-1
-,  // @lengthOf(
-
-""\n""
-    ,	""a\""b""
-    , ""\" ++ [233]%N ++ runes_of_ascii """
-    , ""1""
-	,	42
-
-    ] 
+Eval vm_compute in ("<<<M128>>>" ++ check (runes_of_ascii "root
+packet // " ++ [27880; 37322]%N ++ runes_of_ascii "
+crc
+    {	@lengthOf(	As
+)@calculatedFrom(""\" ++ [233]%N ++ runes_of_ascii """
+    ) zchar[ 4294967296 ]MetaDataX `doc` ,/// triple
+rootA @calculatedFrom( ""it's"" )	,@tag( 65535
+    ) @tag( // c
+7 )@tag( 00
+//
+// c
+) len @lengthOf( A ) `two words` ,
+// trailing space 
+// " ++ [128512]%N ++ runes_of_ascii " emoji
+string	rootA@lengthOf( pack
+// trailing space 
+//	t
+) ,
+// " ++ [128512]%N ++ runes_of_ascii " emoji
+// trailing space 
+repeat zchar ,
+@calculatedFrom( ""abc"" )@leftPad ('\x00' ) @rightPad
+( )match x_y_z
+    as Z9_{
+""it's""
+    :
+Logon//x
+, ""x y"" : Packet,""abc""
+: trueish 4294967296 // @lengthOf(
 :
-    msg_type
-    ,
-""" ++ [128512]%N ++ runes_of_ascii """:
-	Foo 
-} 
-,
-T //x
-{
-match
-Header as	trueish
-{ [ 
-  // `tick` ""quote"" 'q'
-	// @lengthOf(
-  0
-,
-	3// @lengthOf(
-,
-""{,}"" ,
-	""1""  , 00 
-,
-
-0123456789,
-""// no comment"" 
+    repeatCount """ ++ [128512]%N ++ runes_of_ascii """:  x_y_z
+} , char[ 10 // @lengthOf(
 ]
-
-:As
-    ,
-    }  ,}
-
-    ,  repeat	char[
-10
-    ]
-
-    o`
+    stringy	`it's`
+, @leftPad (
+'\x00' )
+rootA @lengthOf(  i64_  )
+    , } MetaData falsey {
+Packet repeatCount `tab	here` ,
+}MetaData string_ {
+    float64 roots `line1
+line2` , char
+As //
 `
-
-    ,@calculatedFrom(  
-      //
-  ""`tick`""//x
-	  ) repeat
-crc { repeatCount o	,
-u8x
-	As 
+` , zchar[ 65535 ]falsey`a\` ,A
+    T , _x metadata, } packet
+_x // packet A { u8 x, }
+{zchar[255 ] string_@lengthOf(
+//	t
+// @lengthOf(
+u128 ) `{ , }`	,
+}root packet Packet
+    {repeat // " ++ [128512]%N ++ runes_of_ascii " emoji
+lengthOf , }")).
+Eval vm_compute in ("<<<M70>>>" ++ check (runes_of_ascii "packet pack { @lengthOf(
+Foo
+    // c
+    )
+    asx @lengthOf( _x ) /// triple
+, u8	x_y_z `two words` ,repeat
+    zchar[0
+    ] roots `
+`
+    // `tick` ""quote"" 'q'
+    , lengthOf @calculatedFrom( ""abc""
+) ,
+@tag( 3 ) @rightPad	( ' ')@calculatedFrom(
+""1""
+//x
+// " ++ [27880; 37322]%N ++ runes_of_ascii "
+)
+repeat uint64 i64_ // trailing space 
+`say ""hi""` // @lengthOf(
+,	@tag( 007 ) match roots as float {	""a	b""
+    : lengthOf,
+    [1, // @lengthOf(
+""\n""
 ,
-	}
-
-, 
-}packet pack {  @calculatedFrom(
-    """ ++ [233]%N ++ runes_of_ascii "t" ++ [233]%N ++ runes_of_ascii """
-
-) 
-u32	f32a,}
-
-    MetaData float { u32
-    options1	, }
-	packet
-f32a
-{  }
+""a\""b"" , ""\" ++ [233]%N ++ runes_of_ascii """ ,  ""1"",
+    42 ]: msg_type, """ ++ [128512]%N ++ runes_of_ascii """: Foo} ,T//x
+{
+    match
+Header
+as trueish
+{ [
+// `tick` ""quote"" 'q'
+// @lengthOf(
+0 , 3// @lengthOf(
+, ""{,}"" ,
+""1"" ,
+00  ,
+0123456789
+,
+    ""// no comment"" ]
+:As
+    , }
+    , } , repeat char[
+    10
+]
+o `
+`
+, @calculatedFrom(
+    //
+    ""`tick`"" //x
+) repeat crc {
+    repeatCount o ,
+    u8x
+As, } ,
+} packet pack{@calculatedFrom( """ ++ [233]%N ++ runes_of_ascii "t" ++ [233]%N ++ runes_of_ascii """ )  u32 f32a
+,
+}
+    MetaData float
+{u32 options1 , }
+packet
+f32a { }
 ")).
-Eval vm_compute in ("<<<M1920>>>" ++ check (runes_of_ascii "packet i8i8 {
-    @tag(0)
-    int32 leftPad `it's`,
-    repeat char[] Header `crlf
-    line`,
-    @calculatedFrom(""\" ++ [233]%N ++ runes_of_ascii """)
-    /// triple
-    repeat uint8 float,
-    @rightPad('\x00')
-    char[] zchar @lengthOf(leftPad) `
-    `,
-    Z9_,
-    @lengthOf(x)
-    match As as tag {
-        ""a	b"" : string_,
-        [
-            10, 7, 255, 3, 42,
-            0123456789, ""1"", """ ++ [128512]%N ++ runes_of_ascii """
-        ] : x_y_z,
-        ""CRC32"" : Z9_,
-        00 : Logon,
-    },
-    @tag(007)
-    o {
-        char Packet @lengthOf(repeatCount),
-    },
-    @lengthOf(pack)
-    float64 rootA `two words`,
-    repeat char[] BodyLength,
-}
-
-packet Z9_ {
-    match As as a1 {
-        //
-        0 : trueish,
-    },
-}
-
-root packet u8x {
-    /// triple
-    // " ++ [128512]%N ++ runes_of_ascii " emoji
-    repeat string Logon `tab	here`,// " ++ [128512]%N ++ runes_of_ascii " emoji
-}
-
-options {
-    _x = ""packet"";
-    f32a = 007
-}
-
-packet i8i8 {
-    @calculatedFrom(""CRC32"")
-    A @lengthOf(a1),
-}")).
 Eval vm_compute in ("<<<M141>>>" ++ check (runes_of_ascii "options // @lengthOf(
 {zchar = char[] Z9_	='0' ;
 } options
@@ -534,34 +492,34 @@ i32;_x = ""abc""
     // packet A { u8 x, }
     ; }
 ")).
-Eval vm_compute in ("<<<M1381>>>" ++ check (runes_of_ascii "packet tag {
-    string matchKey `line1
-    line2`,
-    @tag(0)
-    @calculatedFrom(""1"")
-    @calculatedFrom(""a\""b"")
-    float64 matchKey,
-}
-
-options {
-    crc = true
-    msg_type = true;
-}
-
-packet o {
-    match roots as calculatedFrom {
-        ""// no comment"" : msg_type,
-        ""{,}"" : u128,
-        [65535, 0123456789] : body,
-        // " ++ [128512]%N ++ runes_of_ascii " emoji
-    },
-    @rightPad(' ')
-    repeat string_ i64_,
-    @lengthOf(lengthOf)
-    @tag(255)
-    @tag(00)
-    char[] stringy,
-}")).
+Eval vm_compute in ("<<<M340>>>" ++ check (runes_of_ascii "packet leftPad//
+{@rightPad () repeat chars	{crc /// triple
+pack  ,
+} ,
+@calculatedFrom( """ ++ [28040; 24687]%N ++ runes_of_ascii """ )@lengthOf(options1  )@tag( 65535 ) Foo,match
+matchKey
+    as // " ++ [128512]%N ++ runes_of_ascii " emoji
+tag	{
+    // c
+    [ ""{,}"",
+""""
+, ""`tick`"" ,
+3 ,""it's"",  """ ++ [128512]%N ++ runes_of_ascii """	,
+""it's""] :As
+    , [
+/// triple
+//	t
+""x y""]
+    //x
+    :
+chars,""" ++ [233]%N ++ runes_of_ascii "t" ++ [233]%N ++ runes_of_ascii """	:uint8x,4294967296:	packetx
+""// no comment""
+:
+calculatedFrom , }
+,  @calculatedFrom( ""// no comment""// @lengthOf(
+)
+char[// trailing space 
+007 ]	f32a ,} // a // b")).
 Eval vm_compute in ("<<<M374>>>" ++ check (runes_of_ascii "MetaData BodyLength { zchar[ 65535 ]	As `crlf
 line`
 , u16 charz , body len,
@@ -632,62 +590,68 @@ Z9_
     ) string
 BodyLength ,
 }")).
-Eval vm_compute in ("<<<M1268>>>" ++ check (runes_of_ascii "// top
-packet
+Eval vm_compute in ("<<<M1277>>>" ++ check (runes_of_ascii "// top
+options
     // c0
-B
-    // c1
-{ // c2
-u8
-    // c3
-a // c4
-, string // c6
-s
-    // c7
-, } root // c10
-packet
-    // c11
-P // c12a
-  // c12b
 {
-    // c13
-u16
-    // c14
-L // c15a
-  // c15b
-@lengthOf( B
-    // c17
-)
-    // c18
+    // c1
+LittleEndian // c2
+=
+    // c3
+true
+    // c4
+;
+    // c5
+}
+    // c6
+root // c7a
+  // c7b
+packet P // c9a
+  // c9b
+{ u16
+    // c11
+a // c12
+, // c13
+u32 // c14a
+  // c14b
+Sum
+    // c15
+@calculatedFrom( ""CRC32"" ) // c18a
+  // c18b
 ,
     // c19
-B
-    // c20
-, u8 // c22a
-  // c22b
-t
-    // c23
-, // c24
-} ")).
-Eval vm_compute in ("<<<M1465>>>" ++ check (runes_of_ascii "options {
+} // c20a
+  // c20b
+")).
+Eval vm_compute in ("<<<M1316>>>" ++ check (runes_of_ascii "  packet
+
+    MDSnapshotZZ	{	u8
+
+a 
+, }  packet
+    OrderACK  { u16
+b, }packet
+	HTTPServerInfo	{
+string
+s
+
+    ,
+}	root
+    packet  FIXMsg
+    { u8
+KType
+,MDSnapshotZZ  , repeat
+
+    OrderACK,  match 
+KType as Body{1 :
+
+HTTPServerInfo  ,	2
+
+:OrderACK	,
+
 }
 
-MetaData string_ {
-    u32 matchKey `u8 x,`,
-    string MetaDataX,
-    uint8 Logon,
-    uint64 options1,
-    char[00] len `tab	here`,
-    u8 options1,
-}
-
-// a // b
-packet a1 {
-    chars,
-    char[] i64_ @lengthOf(stringy),
-    char T,
-    repeat i8 charz `a\`,
-}")).
+    ,}")).
 Eval vm_compute in ("<<<M1671>>>" ++ check (runes_of_ascii "options {
     // c1a
     // c1b
